@@ -662,6 +662,11 @@ impl Oracle for HeapOracle {
                 }
             }
             Rec::CallEnd { call, .. } => {
+                if crate::alloc::double_frees() > 0 {
+                    let (a, b) = crate::alloc::last_double_free();
+                    crate::alloc::reset_double_frees();
+                    return viol(prop, "double_free", format!("a block (allocated with size {}) was released a second time (as size {})", a, b), *call);
+                }
                 let m = crate::alloc::mismatches();
                 if m > 0 {
                     let (asz, aal, dsz, dal) = crate::alloc::last_mismatch();
@@ -671,6 +676,11 @@ impl Oracle for HeapOracle {
             }
             Rec::Teardown { live, live_blocks, zero_size, mismatches } => {
                 self.checked += 1;
+                if crate::alloc::double_frees() > 0 {
+                    let (a, b) = crate::alloc::last_double_free();
+                    crate::alloc::reset_double_frees();
+                    return viol(prop, "double_free", format!("a block (allocated with size {}) was released a second time (as size {}) while the endpoints were dropped", a, b), 0);
+                }
                 if *zero_size > 0 {
                     return viol(prop, "zero_size_allocation", format!("{} blocks of size zero were requested from the allocator by library code (GlobalAlloc::alloc requires a non-zero size)", zero_size), 0);
                 }
